@@ -71,7 +71,10 @@ type c13Case struct {
 	End    string   `json:"end"`
 	Peer   string   `json:"peer"`
 	Settle bool     `json:"settle"`
-	StMs   int      `json:"st_ms"`
+	// Companion > 0: a second session on the same handler subscribes to everything and then stops
+	// reading while this session runs (its router queue fills up); both must end and release everything
+	Companion int `json:"companion,omitempty"`
+	StMs      int `json:"st_ms"`
 	PingMs int      `json:"ping_ms"`
 	Obs    c13Obs   `json:"obs"`
 }
@@ -296,6 +299,44 @@ func c13RunSession(c *c13Case) {
 	}
 	defer stop()
 
+	// the stalled companion session
+	var ccancel context.CancelFunc
+	var cdone chan struct{}
+	if c.Companion > 0 {
+		var cctx context.Context
+		cctx, ccancel = context.WithCancel(context.Background())
+		defer ccancel()
+		crecv := make(chan mocrelay.ClientMsg)
+		csend := make(chan mocrelay.ServerMsg)
+		cdone = make(chan struct{})
+		go func() {
+			defer close(cdone)
+			defer func() { recover() }()
+			b.h.ServeNostr(cctx, csend, crecv)
+		}()
+		t := time.NewTimer(c13FeedBound)
+		select {
+		case crecv <- &mocrelay.ClientReqMsg{SubscriptionID: "cmp", ReqFilters: []*mocrelay.ReqFilter{{}}}:
+		case <-t.C:
+		}
+		t.Stop()
+		// read until the subscription is answered (EOSE or CLOSED), then never again
+		t = time.NewTimer(c13FeedBound)
+	waitEOSE:
+		for {
+			select {
+			case m := <-csend:
+				switch m.(type) {
+				case *mocrelay.ServerEOSEMsg, *mocrelay.ServerClosedMsg:
+					break waitEOSE
+				}
+			case <-t.C:
+				break waitEOSE
+			}
+		}
+		t.Stop()
+	}
+
 	stall := c.Peer == "stall"
 	fed := true
 	for i, m := range c.Hist {
@@ -339,6 +380,16 @@ func c13RunSession(c *c13Case) {
 	t.Stop()
 	stop()
 	c.Obs.Panic = panicked
+	if c.Companion > 0 {
+		ccancel()
+		t := time.NewTimer(c13ReturnBound)
+		select {
+		case <-cdone:
+		case <-t.C:
+			c.Obs.Returned = false // the stalled companion did not end on cancel
+		}
+		t.Stop()
+	}
 
 	// everything the session started must be gone; retry before declaring a leak
 	deadline := time.Now().Add(c13LeakRetry)
@@ -348,10 +399,7 @@ func c13RunSession(c *c13Case) {
 		if !c.Obs.Returned {
 			// the serving goroutine itself is still there; it is reported by returned=false
 		}
-		reg = 0
-		for _, r := range b.routers {
-			reg += mocrelay.VerifRouterRegistrySize(r)
-		}
+		reg = c13RegSize(b.routers)
 		if (leak <= 0 && reg == 0) || time.Now().After(deadline) {
 			break
 		}
@@ -366,6 +414,28 @@ func c13RunSession(c *c13Case) {
 	if !c.Obs.Returned {
 		// unblock whatever is left so that it does not disturb the following cases
 		cancel()
+	}
+}
+
+// c13RegSize reads the routers' registry sizes.  The read takes the registry's read lock; when a
+// stuck publisher holds it and a writer waits, the read would block for ever, so it is bounded and a
+// registry that cannot be read counts as not released.
+func c13RegSize(routers []*mocrelay.RouterHandler) int {
+	res := make(chan int, 1)
+	go func() {
+		n := 0
+		for _, r := range routers {
+			n += mocrelay.VerifRouterRegistrySize(r)
+		}
+		res <- n
+	}()
+	t := time.NewTimer(time.Second)
+	defer t.Stop()
+	select {
+	case n := <-res:
+		return n
+	case <-t.C:
+		return 999
 	}
 }
 
@@ -488,6 +558,20 @@ func c13GenSession(r *common.Rand, idx int) c13Case {
 		c.End, c.Peer = "close", "drain"
 	}
 	c.Settle = r.Chance(40)
+	if r.Chance(8) {
+		// a stalled second session on the same handler while this one publishes more events than
+		// any per-subscriber buffer holds
+		c.Comp = common.Pick(r, []int{2, 4, 5, 6, 7, 8})
+		c.Companion = 1
+		c.Hist = nil
+		for i := 0; i < 7+r.Intn(4); i++ {
+			e := common.Small.Event(r, 100+i)
+			e.Kind = 1
+			e.Tags = [][]string{{"t", "v1"}}
+			c.Hist = append(c.Hist, c13Msg{T: "EVENT", Ev: &e})
+		}
+		c.End, c.Peer = common.Pick(r, []string{"cancel", "close"}), "drain"
+	}
 	return c
 }
 
